@@ -46,6 +46,10 @@ pub struct Case {
     /// negative control, succeeded) after at most this many bytes pulled
     pub must_reject_within: Option<usize>,
     pub endless_ok: bool,
+    /// with must_reject_within: returning Ok is fine too, what matters is that the call returns
+    /// after a bounded amount of input
+    #[serde(default)]
+    pub ok_allowed: bool,
     /// the peer stalls at this offset: one read fails (read timeout), later reads go on
     #[serde(default)]
     pub fault: Option<(usize, FaultKind)>,
@@ -163,6 +167,7 @@ fn mutants(tier: Tier) -> Vec<Case> {
                     terminal: t,
                     must_reject_within: None,
                     endless_ok: false,
+                    ok_allowed: false,
                     fault: None,
                 });
             }
@@ -230,6 +235,7 @@ fn mutants(tier: Tier) -> Vec<Case> {
                         terminal: Terminal::ReadRetry,
                         must_reject_within: None,
                         endless_ok: false,
+                        ok_allowed: false,
                         fault: Some((at, kind)),
                     });
                 }
@@ -273,6 +279,7 @@ fn endless() -> Vec<Case> {
         terminal: term,
         must_reject_within: within,
         endless_ok: ok,
+        ok_allowed: false,
         fault: None,
     };
     let mut v = vec![
@@ -297,6 +304,13 @@ fn endless() -> Vec<Case> {
         mk("huge-length-body", Route::Direct, b"HTTP/1.1 200 OK\r\nContent-Length: 9223372036854775807\r\n\r\n", b"zy", Terminal::ReadSome(300_000), None, true),
         mk("huge-chunk-body", Route::Direct, b"HTTP/1.1 200 OK\r\nTransfer-Encoding: chunked\r\n\r\n7fffffffffffffff\r\n", b"zy", Terminal::ReadSome(300_000), None, true),
     ];
+    // interim responses without end: whatever the client makes of a 1xx, it must come back
+    for (name, rep) in [("interim-100", &b"HTTP/1.1 100 Continue\r\n\r\n"[..]), ("interim-103", &b"HTTP/1.1 103 Early Hints\r\nLink: </x>; rel=preload\r\n\r\n"[..]), ("interim-102-connect", &b"HTTP/1.1 102 Processing\r\n\r\n"[..])] {
+        let route = if name.ends_with("connect") { Route::Connect } else { Route::Direct };
+        let mut c = mk(name, route, b"", rep, Terminal::Bytes, Some(bound), false);
+        c.ok_allowed = true;
+        v.push(c);
+    }
     // the same with 1-byte segments for the header-ish ones
     let extra: Vec<Case> = v
         .iter()
@@ -359,6 +373,7 @@ impl Space {
                 terminal: Terminal::Bytes,
                 must_reject_within: None,
                 endless_ok: false,
+                ok_allowed: false,
                 fault: None,
             };
         }
@@ -503,7 +518,7 @@ fn run_case(c: &Case) -> Outcome {
             ));
         }
         if let Some(within) = c.must_reject_within {
-            let rejected = matches!(&res, Ok(Err(_)));
+            let rejected = matches!(&res, Ok(Err(_))) || (c.ok_allowed && matches!(&res, Ok(Ok(_))));
             if budget || !rejected || served > c.wire.len() + within + 8192 {
                 viol.push((
                     "endless-not-rejected".into(),
